@@ -19,8 +19,9 @@ package hpack
 //
 //@ func appendVarInt(dst, n, i) (out)
 //@   requires 1 <= n && n <= 8
-//@   ensures  len(out) > len(dst) && len(out) <= len(dst) + 11
+//@   ensures  len(out) > len(dst) && len(out) <= len(dst) + 11 && (samebase(out, dst) || fresh(out))
 //@   ensures  forall k int :: 0 <= k && k < len(dst) ==> out[k] == old(dst[k])
+//@   ensures  int(out[len(dst)]) <= (1 << uint(n)) - 1
 //@   loop 1 unroll 10
 //@   modifies elems(dst)
 //@   allocates
@@ -115,6 +116,7 @@ func lemmaHpackIntTruncated(n byte, i uint64, cut int) (ok bool) {
 //@   ensures  err == errNeedMore ==> unchanged(d.buf) && unchanged(d.dynTab.size) && unchanged(d.dynTab.maxSize)
 //@   ensures  err == nil ==> samebase(d.buf, old(d.buf)) && startoff(d.buf) > startoff(old(d.buf)) && endoff(d.buf) == endoff(old(d.buf))
 //@   assert at call add: it == indexedTrue
+//@   assert at call callEmit: $hf.Sensitive == (it == indexedNever)
 //@   noframe
 //@
 //@ func (*Decoder).parseDynamicTableSizeUpdate(d) (err)
@@ -127,6 +129,8 @@ func lemmaHpackIntTruncated(n byte, i uint64, cut int) (ok bool) {
 //@   noframe
 //@
 //@ func (*Decoder).parseHeaderFieldRepr(d) (err)
+//@   assert at call parseFieldLiteral: ($it == indexedNever) == (old(d.buf[0]) & 0xF0 == 0x10)
+//@   assert at call parseFieldLiteral: ($it == indexedTrue) == (old(d.buf[0]) & 0xC0 == 0x40)
 //@   requires d != nil && d.maxStrLen >= 0 && len(d.buf) >= 1 && len(d.dynTab.table.ents) <= 1<<32 && staticTable != nil && len(staticTable.ents) <= 1<<16
 //@   ensures  err == errNeedMore ==> unchanged(d.buf) && unchanged(d.dynTab.size) && unchanged(d.dynTab.maxSize)
 //@   ensures  err == nil ==> samebase(d.buf, old(d.buf)) && startoff(d.buf) > startoff(old(d.buf)) && endoff(d.buf) == endoff(old(d.buf))
@@ -139,10 +143,14 @@ func lemmaHpackIntTruncated(n byte, i uint64, cut int) (ok bool) {
 // evict entries the encoder still refers to.
 //
 //@ func (*Encoder).WriteField(e, f) (err)
-//@   requires e != nil && (!e.tableSizeUpdate ==> e.minSize == uint32Max)
+//@   requires e != nil && staticTable != nil && (!e.tableSizeUpdate ==> e.minSize == uint32Max)
 //@   ensures  !e.tableSizeUpdate && e.minSize == uint32Max
 //@   assert at call appendTableSize: uint32($v) == old(e.minSize) || uint32($v) == e.dynTab.maxSize
 //@   assert at call appendTableSize#1: old(e.tableSizeUpdate)
+//@   assert at call add: !f.Sensitive
+//@   assert at call appendIndexed: !f.Sensitive
+//@   assert at call appendNewName: $indexing ==> !f.Sensitive
+//@   assert at call appendIndexedName: $indexing ==> !f.Sensitive
 //@   trustcall Write
 //@   partial nopanic
 //@   noframe
@@ -160,21 +168,49 @@ func lemmaHpackIntTruncated(n byte, i uint64, cut int) (ok bool) {
 //@   noframe
 //@
 //@ func (*Encoder).searchTable(e, f) (i, nameValueMatch)
+//@   requires e != nil && staticTable != nil
+//@   ensures  f.Sensitive ==> !nameValueMatch
+//@   partial nopanic
+//@ func (*headerFieldTable).search(t, f) (i, nameValueMatch)
+//@   requires t != nil
+//@   ensures  f.Sensitive ==> !nameValueMatch
+//@   partial nopanic
+//@ func (*headerFieldTable).idToIndex(t, id) (r)
 //@   trusted
+//@ func (*Encoder).shouldIndex(e, f) (r)
+//@   requires e != nil
+//@   ensures  r ==> !f.Sensitive
+//@ func encodeTypeByte(indexing, sensitive) (r)
+//@   ensures sensitive ==> r == 0x10
+//@   ensures !sensitive && indexing ==> r == 0x40
+//@   ensures !sensitive && !indexing ==> r == 0
 //@ func appendTableSize(dst, v) (out)
 //@   trusted
+//@   ensures samebase(out, dst) || fresh(out)
 //@   modifies elems(dst)
 //@   allocates
 //@ func appendIndexed(dst, i) (out)
 //@   trusted
+//@   ensures samebase(out, dst) || fresh(out)
 //@   modifies elems(dst)
 //@   allocates
 //@ func appendNewName(dst, f, indexing) (out)
+//@   ensures  len(out) > len(dst) && (samebase(out, dst) || fresh(out))
+//@   ensures  f.Sensitive ==> out[len(dst)] == 0x10
+//@   ensures  !f.Sensitive && !indexing ==> out[len(dst)] == 0
+//@   modifies elems(dst)
+//@   allocates
+//@ func appendHpackString(dst, s) (out)
 //@   trusted
+//@   ensures  len(out) > len(dst) && (samebase(out, dst) || fresh(out))
+//@   ensures  forall k int :: 0 <= k && k < len(dst) ==> out[k] == old(dst[k])
 //@   modifies elems(dst)
 //@   allocates
 //@ func appendIndexedName(dst, f, i, indexing) (out)
-//@   trusted
+//@   requires indexing ==> !f.Sensitive
+//@   ensures  len(out) > len(dst) && (samebase(out, dst) || fresh(out))
+//@   ensures  f.Sensitive ==> out[len(dst)] & 0xF0 == 0x10
+//@   ensures  !f.Sensitive && !indexing ==> out[len(dst)] & 0xF0 == 0
 //@   modifies elems(dst)
 //@   allocates
 //@
